@@ -227,7 +227,7 @@ def main(bdir, gen_dir, aux, le_dump):
         with open(os.path.join(aux, 'cat_%s.txt' % k), 'w') as f:
             for n, p in v: f.write('%s\t%s\n' % (n, p))
     js = dict(nist=nist, nuclides=nucs, crystals=[dict(name=c['name'], n_atom=c['n_atom'], atoms=len(c['atoms'])) for c in crystals], mendel=mend, mendel_sorted=mends,
-              crystals_full=[dict(name=c['name'], n_atom=c['n_atom'], atoms_decl=c['atoms_decl'], atoms=[list(a) for a in c['atoms']]) for c in crystals],
+              crystals_full=[dict(name=c['name'], cell=c['cell'], volume=c['volume'], n_atom=c['n_atom'], atoms_decl=c['atoms_decl'], atoms=[list(a) for a in c['atoms']]) for c in crystals],
               nist_macros=nm, nuclide_macros=rm, counts=dict(nist=len(nist), nist_declared=n_nist, nuclides=len(nucs), nuclides_declared=n_nuc, crystals=len(crystals), crystals_declared=n_cryst,
               mendel=len(mend), atoms=sum(len(c['atoms']) for c in crystals), line_rows=len(zx)), scales=dict(nist=S, nuclide=SN, crystal=SC),
               files=dict(nist=nrel, nuclides=rrel))
